@@ -11,7 +11,7 @@ from . import codec, msggen, proj
 # (name, MaxDepth, MaxKids, NAttr, NRule, NUnits, MaxValLen, MaxAny, Decor, EscStyles, AllowEmptyAny, LeafKinds)
 GEN_QUICK = [
     ("leaves", 0, 2, 3, 2, 23, 1, 1, 0, 5, "FALSE", "KNoSub"),
-    ("attrs", 0, 2, 11, 4, 1, 1, 1, 0, 1, "FALSE", "KAll"),
+    ("attrs", 0, 2, 12, 6, 1, 1, 1, 0, 1, "FALSE", "KAll"),
     ("substr", 0, 2, 1, 1, 6, 1, 2, 0, 1, "FALSE", "KEqSub"),
     ("values2", 0, 2, 1, 1, 16, 2, 1, 0, 1, "FALSE", "KEq"),
     ("decor", 1, 2, 1, 1, 1, 1, 1, 1, 1, "FALSE", "KEqPresent"),
@@ -21,12 +21,12 @@ GEN_QUICK = [
 ]
 GEN_THOROUGH = GEN_QUICK + [
     ("values3", 0, 2, 1, 1, 16, 3, 1, 0, 1, "FALSE", "KEq"),
-    ("leaves-all-attrs", 0, 2, 11, 4, 23, 1, 1, 0, 5, "FALSE", "KNoSub"),
+    ("leaves-all-attrs", 0, 2, 12, 6, 23, 1, 1, 0, 5, "FALSE", "KNoSub"),
     ("substr-wide", 0, 2, 2, 1, 10, 1, 2, 0, 1, "FALSE", "KSub"),
-    ("ext-wide", 0, 2, 4, 4, 6, 2, 1, 0, 1, "FALSE", "KExt"),
+    ("ext-wide", 0, 2, 4, 6, 6, 2, 1, 0, 1, "FALSE", "KExt"),
     ("shapes3", 3, 2, 1, 1, 1, 1, 1, 0, 1, "FALSE", "KEq"),
 ]
-SIM = ("sim", 5, 3, 11, 4, 23, 3, 2, 2, 5, "FALSE", "KAll")
+SIM = ("sim", 5, 3, 12, 6, 23, 3, 2, 2, 5, "FALSE", "KAll")
 INVS = ["ParseOfUnparse", "StrictWhenUndecorated", "NamesValid"]
 
 
@@ -154,8 +154,8 @@ def str_event(tree: t.Dict[str, t.Any]) -> t.Dict[str, t.Any]:
 
 
 # ---- random trees in the domain of C13 (D3, D4) -------------------------------------------------------------
-ATTRS = ["cn", "CN", "Cn", "objectClass", "OBJECTCLASS", "objectclass", "sn", "SN", "member;range-0-1", "userCertificate;binary", "1.2.840.113556.1.4.803", "2.5.4.3;lang-en", "a", "x-y-", "0.9.2342", "o;x-1;y-2"]
-RULES = ["caseExactMatch", "1.2.840.113556.1.4.803", "2.5.13.5", "x-rule"]
+ATTRS = ["dn", "cn", "CN", "Cn", "objectClass", "OBJECTCLASS", "objectclass", "sn", "SN", "member;range-0-1", "userCertificate;binary", "1.2.840.113556.1.4.803", "2.5.4.3;lang-en", "a", "x-y-", "0.9.2342", "o;x-1;y-2"]
+RULES = ["caseExactMatch", "1.2.840.113556.1.4.803", "2.5.13.5", "x-rule", "dnSubtreeMatch", "dnQualifierMatch", "dn-1"]
 
 
 def r_val(rnd: random.Random, nonempty: bool = False) -> t.List[int]:
@@ -293,7 +293,7 @@ def run_c14(tier: str, seed: int) -> int:
         C.cleanup(wd)
 
 
-EDIT_CHARS = "()&|!=*\\:; \n\t\x00a1.é~<>"
+EDIT_CHARS = "()&|!=*\\:; \n\t\x00a1.é~<>\udce9"
 
 
 def edits(text: str, rnd: random.Random, limit: int) -> t.List[str]:
@@ -345,6 +345,15 @@ def run_c15(tier: str, seed: int) -> int:
                     head, sep, tail = tw.partition("=")
                     texts.append(head.replace(a_, u_, 1) + sep + tail)
                     texts.append(head.replace(a_, u_) + sep + tail)
+        # a non-UTF-8 octet carried as a lone surrogate (os.fsdecode, argv), an unpaired high surrogate and a NUL at every
+        # position of representative sentences: attribute, option, rule, operator, value, between items
+        reps = twins + ["(&(cn=a)(!(sn;x-1=b*c*d)))", "(cn:dn:2.5.13.5:=x)", "(:dn:caseExactMatch:=x)", "(|(a<=1)(b~=2))", "(o=\\2a)"] + rnd.sample(base, min(len(base), 12 if tier == "quick" else 120))
+        for tx in reps:
+            for p_ in range(len(tx) + 1 if len(tx) <= 40 else 0):
+                for ch in ("\udce9", "\ud83d", "\udc80"):
+                    texts.append(tx[:p_] + ch + tx[p_:])
+                    if p_ < len(tx):
+                        texts.append(tx[:p_] + ch + tx[p_ + 1:])
         # arbitrary text
         alphabet = "()&|!=*\\:; a1.\n\t\x00é\U0001f600𐂀\udfff~<>"
         for _ in range(2000 if tier == "quick" else 40000):
